@@ -60,12 +60,16 @@ def unit(shape, cv):
 
 
 class Cfg:
-    def __init__(self, name, f, vs, note=None, part2=None):
+    def __init__(self, name, f, vs, note=None, part2=None, spec=None):
         """vs: list of differentiation variables (Variable or Coefficient), applied in order
         (one or two).  part2 = (f2, v2, "sum"|"prod"): a second diff node in the SAME expression
         (scalar f, f2 and scalar variables), expanded in one expand_derivatives call."""
         self.name, self.f, self.vs = name, f, list(vs)
         self.part2 = part2
+        # spec = (F', [T_1, ..]): f written independently of UFL's labels, with the terminal T_k in
+        # place of the k-th differentiation variable (and of everything that is expressed through it);
+        # the result is still mapped by label.  Used where the identity of a Variable is the point.
+        self.spec = spec
         self.note = dict(note or {})
         self.out = None
         self.raised = None
@@ -85,6 +89,13 @@ class Cfg:
 
     def prepared(self):
         """(F', out', [T_1, ..]) with variable nodes replaced by fresh terminals."""
+        if self.spec is not None:
+            F, Ts = self.spec
+            out = self.out
+            for v, T in zip(self.vs, Ts):
+                out = subst_variable(out, v.label(), T)
+            self.F2s = None
+            return F, out, list(Ts)
         F, out, Ts = self.f, self.out, []
         F2 = self.part2[0] if self.part2 is not None else None
         done = {}
@@ -233,6 +244,44 @@ def configurations(tier, seed):
                      ("ident", vg, vg)]:
         cfgs.append(Cfg(f"h_{nm}", F, [x], note={"variable": "wraps a derivative of a non-terminal", "rule": nm}))
     cfgs.append(Cfg("h_twice", vdx ** 3 * f, [vdx, vdx], note={"variable": "wraps (w*w*f).dx(0)", "repeated": True}))
+    # J. the identity of variables: variable(e) is a NEW differentiation variable every time it is
+    #    called -- also when e is itself a variable or an expression that already has a variable.
+    #    The specification side is written with explicit terminals, not recovered from labels.
+    def fresh(shape=()):
+        return sc(shape)
+    va1 = variable(w)
+    va2 = variable(va1)                      # variable of a variable
+    va3 = variable(va2)
+    T = fresh()
+    cfgs.append(Cfg("j_varvar_outer", va2 ** 2 + 3 * va1, [va2], spec=(T ** 2 + 3 * va1, [T]),
+                    note={"identity": "v2 = variable(v1); diff w.r.t. v2 holds bare v1 fixed"}))
+    T = fresh()
+    cfgs.append(Cfg("j_varvar_inner", va2 ** 2 + 3 * va1, [va1], spec=(T ** 2 + 3 * T, [T]),
+                    note={"identity": "v2 = variable(v1); diff w.r.t. v1 goes through v2"}))
+    T = fresh()
+    cfgs.append(Cfg("j_varvarvar_mid", va3 * va2 * va1 + ufl.sin(va3), [va2], spec=(T * T * va1 + ufl.sin(T), [T]),
+                    note={"identity": "v3 = variable(v2 = variable(v1)); diff w.r.t. v2"}))
+    T = fresh()
+    cfgs.append(Cfg("j_varvarvar_outer", va3 * va2 * va1 + ufl.sin(va3), [va3], spec=(T * va2 * va1 + ufl.sin(T), [T]),
+                    note={"identity": "v3 = variable(v2 = variable(v1)); diff w.r.t. v3"}))
+    wa1 = variable(wv)
+    wa2 = variable(wa1)
+    T = fresh((2,))
+    cfgs.append(Cfg("j_varvar_vec", dot(wa2, wa2) + wa1[0] * wa2[1], [wa2], spec=(dot(T, T) + wa1[0] * T[1], [T]),
+                    note={"identity": "vector: w2 = variable(w1)"}))
+    e0 = w * f + g
+    vb1, vb2 = variable(e0), variable(e0)     # two variables of the same expression
+    T = fresh()
+    cfgs.append(Cfg("j_same_expr_twice", vb1 * vb2 * vb2 + vb1 * e0, [vb1], spec=(T * vb2 * vb2 + T * e0, [T]),
+                    note={"identity": "two variables of the same expression are different variables"}))
+    T = fresh()
+    vc1 = variable(w)
+    vc2 = variable(w)
+    cfgs.append(Cfg("j_same_coef_twice", vc1 * vc2 + vc2 * vc2 * w, [vc2], spec=(vc1 * T + T * T * w, [T]),
+                    note={"identity": "two variables of the same coefficient"}))
+    T1, T2 = fresh(), fresh()
+    cfgs.append(Cfg("j_varvar_mixed", va2 * va2 * va1 * f, [va2, va2], spec=(T1 * T1 * va1 * f, [T1, T1]),
+                    note={"identity": "repeated diff w.r.t. the outer variable of a variable"}))
     # H. several diff nodes expanded in ONE call (shared dispatcher / ruleset caches) ----------------
     vq = variable(w)          # a second variable of the same coefficient (different label)
     for nm, f1, x1, f2, x2 in [("two_vars", v * v * f, v, ve * ve * g, ve), ("same_expr", v * vq * vq, v, v * vq * vq, vq),
